@@ -31,5 +31,7 @@ package processorretry
 //@   ensures[ok]           result1 == nil && (result0.Name == "retry" || result0.Name == "failed")
 //@   ensures[retry-iff]    result0.Name == "retry" <==> old(cntR(p, APIStream, APIStream.GetSequenceID())) + 1 <= p.attempts
 //@   ensures[count]        result0.Name == "retry" ==> cntR(p, APIStream, APIStream.GetSequenceID()) == old(cntR(p, APIStream, APIStream.GetSequenceID())) + 1
+//@   ensures[retry-action]  result0.Name == "retry" <==> typeis(result0.RespAction, *actions.RetryRequestAction)
+//@   ensures[failed-ends]   result0.Name == "failed" ==> ifacenil(result0.RespAction) && ifacenil(result0.ReqAction)
 //@   ensures[fail-forgets] result0.Name == "failed" ==> !hasR(p, APIStream, APIStream.GetSequenceID())
 //@   ensures[frame]        forall(q, string, q != APIStream.GetSequenceID() ==> (hasR(p, APIStream, q) <==> old(hasR(p, APIStream, q))) && valR(p, APIStream, q) == old(valR(p, APIStream, q)))
